@@ -908,6 +908,12 @@ def hist_observe(bdir, env, names):
     return res, pickled
 
 
+def hist_unset_ignored(ei, got):
+    """the definition's environment consists of unset() calls only and the process sees the outer environment untouched"""
+    ops = HIST_ENVDEFS[ei][1]
+    return bool(ops) and all(o[0] == 'unset' for o in ops) and got is not None and got[1] == {k: b(v) for k, v in HIST_OUTER.items()}
+
+
 def hist_describe(d):
     return '%s %r' % (HIST_ENVDEFS[d[0]][0], HIST_ARGDEFS[d[1]])
 
@@ -964,6 +970,8 @@ def run_history(job):
                     'given': [hist_describe(d) for d in ([A, defs[ib], A][:step + 1])], 'observed': repr(got), 'expected': repr(exp)}
             if got is None:
                 key = 'C03:reconfigure:no-observation'
+            elif hist_unset_ignored(cur[0], got):
+                key = 'C03:unset-only-env-ignored:' + pos
             elif prev is not None and got[1] != exp[1] and got[1] == hist_env_expected(prev[0]):
                 key = 'C03:reconfigure:env-of-earlier-definition'
             elif got[1] != exp[1]:
@@ -1016,6 +1024,8 @@ def run_siblings(job):
             continue
         if got is None:
             key = 'C03:siblings:no-observation'
+        elif hist_unset_ignored(mine, got):
+            key = 'C03:unset-only-env-ignored:' + pos
         elif got[1] != exp[1] and got[1] == hist_env_expected(other):
             key = 'C03:siblings:env-of-other-target'
         elif got[1] != exp[1]:
@@ -1141,6 +1151,7 @@ def main():
         ck.require((sib.get('pickled', 0) > 0 and sib.get('outcome_differs', 0) > sib.get('pairs', 0) // 2) or ck.n_viol, 'sibling family vacuous: %r' % sib)
     ck.part('positions', **kinds)
     if not ck.want('strings'):
+        print('keys', json.dumps(ck._seen_keys, sort_keys=True), json.dumps(ck._known_hit, sort_keys=True))
         ck.finish(evaluations=tot['cases'], distinct_nontrivial=len(kinds), rule='partial run (--only)', exhaustive=False)
     ck.require(tot['rsp_edges'] > 0, 'no response-file statement seen')
     ck.part('totals', strings=len(strings), max_atoms=n, **tot)
